@@ -105,7 +105,7 @@ P == CASE Profile = "c04q" ->
 \* C18 only: the compiler named by the command (one CBI does not know), an option it does not
 \* model, and a "ghost" database entry (for a file that does not exist) placed before the entry
 CcChoices == IF Profile = "c18" THEN {"gcc", "weirdcc"} ELSE {"gcc"}
-FlagChoices == IF Profile = "c18" THEN {"", "-fweird-option", "-fopen"} ELSE {""}   \* -fopen: a prefix of an option gcc knows
+FlagChoices == IF Profile = "c18" THEN {"", "-fweird-option", "-fopen", "-nostdinc"} ELSE {""}   \* -fopen: a prefix of an option gcc knows
 GhostChoices == IF Profile = "c18" THEN {FALSE, TRUE} ELSE {FALSE}
 \* -DHDR=<header name>: the operand of a computed include may come from the command line, so the same
 \* `#include HDR` directive means different files in different translation units
